@@ -196,18 +196,38 @@ def _residuals(mon, tag, iA, D, Dinv, mech):
         X = iA.toarray()
     except Exception as e:
         mon.violation(mech, {"what": f"{tag}: result storage unusable", "error": repr(e)})
-        return
+        return False
     if X.shape != D.shape:
         mon.violation(mech, {"what": f"{tag}: shape", "got": list(X.shape)})
-        return
+        return False
     if not np.all(np.isfinite(X)):
         mon.violation(mech, {"what": f"{tag}: non-finite entries"})
-        return
+        return False
     eye = np.eye(n)
-    mon.close(f"{tag}:inv*A-I", X @ D, eye, TOL, mech, scale=1.0)
-    mon.close(f"{tag}:A*inv-I", D @ X, eye, TOL, mech, scale=1.0)
-    mon.close(f"{tag}:inv-vs-numpy", X, Dinv, TOL, mech,
-              scale=float(np.max(np.abs(Dinv))))
+    ok = mon.close(f"{tag}:inv*A-I", X @ D, eye, TOL, mech, scale=1.0)
+    ok &= mon.close(f"{tag}:A*inv-I", D @ X, eye, TOL, mech, scale=1.0)
+    ok &= mon.close(f"{tag}:inv-vs-numpy", X, Dinv, TOL, mech,
+                    scale=float(np.max(np.abs(Dinv))))
+    return bool(ok)
+
+
+def _permuted_inverse_python_backend(mo, A, rp, cp, bs):
+    """The real ``invert_permuted_block_diag_matrix`` with its block inverter forced to
+    the bounds-checked python back-end (fault injection: forced inverter back-end).
+
+    Used first when stored zeros lie outside the computed blocks: the numba kernel does
+    no bounds checking and has been observed to corrupt the heap on such input
+    ('free(): invalid pointer'), which would take the whole worker down."""
+    orig = mo.invert_diagonal_blocks
+
+    def forced(mat, s, method=None):
+        return orig(mat, s, method="python")
+
+    mo.invert_diagonal_blocks = forced
+    try:
+        return mo.invert_permuted_block_diag_matrix(A, rp, cp, bs)
+    finally:
+        mo.invert_diagonal_blocks = orig
 
 
 def _direct(case, mon, mo):
@@ -302,6 +322,19 @@ def _permuted(case, mon, mo):
     Dinv = np.linalg.inv(Dp)
     mech = ("permuted-inverse:stored-zero-outside-blocks" if offblock
             else "permuted-inverse")
+    if offblock:
+        # safe rehearsal with the python back-end; the numba path only runs if it passes
+        try:
+            iA = _permuted_inverse_python_backend(mo, A, rp, cp, bs)
+        except Exception as e:  # noqa: BLE001
+            mon.violation(mech, {"what": "exception (python back-end forced)",
+                                 "error": repr(e)[:300]})
+            return
+        mon.count("inversions:permuted_forced_python")
+        if not _residuals(mon, "permuted-forced-python", iA, Dp, Dinv, mech):
+            mon.excluded("numba path of the permuted inverter not run: stored zeros "
+                         "outside the blocks reach the kernel (memory-unsafe)")
+            return
     try:
         iA = mo.invert_permuted_block_diag_matrix(A, rp, cp, bs)
     except Exception as e:  # noqa: BLE001
